@@ -222,10 +222,14 @@ MsStep(e) ==
                   /\ SetT(t, Call(th, "Cancel", [err |-> IF m.term = "mgr:EOF" THEN "Canceled" ELSE m.term], "ms.t2"))
                \/ /\ m.sfin = 1 /\ mgr' = [mgr EXCEPT ![e].sfin = 0, ![e].sem = 0]
                   /\ SetT(t, [th EXCEPT !.opc = "ms.idle"])
-               \/ /\ (IF e = "srv" THEN sctx ELSE rpc[th.r].ctx) # "live"
-                  /\ LET ce == CtxErr(IF e = "srv" THEN sctx ELSE rpc[th.r].ctx) IN
-                     IF Soft THEN mgr' = [mgr EXCEPT ![e].sem = 0] /\ SetT(t, [Call(th, "SendCancel", [err |-> ce], "ms.sc") EXCEPT !.ce = ce])
-                     ELSE UNCHANGED mgr /\ SetT(t, [Call(th, "Cancel", [err |-> ce], "ms.hc") EXCEPT !.ce = ce])
+               \/ /\ (IF e = "srv" THEN sctx ELSE rpc[th.r].ctx) # "live"      \* case <-ctx.Done(): chosen even if the stream has finished too
+                  /\ UNCHANGED mgr
+                  /\ SetT(t, [th EXCEPT !.opc = IF "manager.stream.ctx" \in ArmedPoints THEN "pt.msctx" ELSE "ms.ctx",
+                                        !.ce = CtxErr(IF e = "srv" THEN sctx ELSE rpc[th.r].ctx)])
+       [] th.opc = "ms.ctx" ->       \* the ctx.Done arm: soft or hard cancel
+            /\ UNCHANGED <<str, tp, net>>
+            /\ IF Soft THEN mgr' = [mgr EXCEPT ![e].sem = 0] /\ SetT(t, Call(th, "SendCancel", [err |-> th.ce], "ms.sc"))
+               ELSE UNCHANGED mgr /\ SetT(t, Call(th, "Cancel", [err |-> th.ce], "ms.hc"))
        [] th.opc = "ms.t2" ->        \* <-m.sfin ; m.sem.Recv()
             /\ m.sfin = 1 /\ mgr' = [mgr EXCEPT ![e].sfin = 0, ![e].sem = 0]
             /\ SetT(t, [th EXCEPT !.opc = "ms.idle", !.in = Idle]) /\ UNCHANGED <<str, tp, net>>
@@ -500,9 +504,10 @@ Fault(e) ==
 
 RelPoint(t) ==
     /\ Bound /\ "point" \in StimKinds
-    /\ thr[t].opc \in {"pt.created", "pt.beforeset", "pt.metaw"}
+    /\ thr[t].opc \in {"pt.created", "pt.beforeset", "pt.metaw", "pt.msctx"}
     /\ SetT(t, [thr[t] EXCEPT !.opc = CASE thr[t].opc = "pt.created" -> "inv.created"
                                           [] thr[t].opc = "pt.beforeset" -> "ncs.set"
+                                          [] thr[t].opc = "pt.msctx" -> "ms.ctx"
                                           [] thr[t].opc = "pt.metaw" -> (IF thr[t].op = "Invoke" THEN "inv.w1" ELSE "ns.w1")])
     /\ Mark /\ Hist([k |-> "point", t |-> t])
     /\ UNCHANGED <<mgr, str, wr, net, rbuf, tp, rpc, nrpc, sctx, connmu, wire, hmeta>>
@@ -531,7 +536,7 @@ Controllable ==
     \/ \E r \in Sids : CancelCtx(r)
     \/ CancelSrv
     \/ \E e \in Eps : Fault(e)
-    \/ \E t \in AppThreads : RelPoint(t)
+    \/ \E t \in AppThreads \cup {Ms(e) : e \in Eps} : RelPoint(t)
     \/ \E t \in AppThreads : RelU(t)
     \/ \E t \in AppThreads : RelM(t)
 
@@ -566,6 +571,7 @@ AppObs(t) == LET th == thr[t] IN
 LibObs(t) == LET th == thr[t] IN
     CASE th.opc = "done" -> "done"
       [] th.in.pc = "tw" -> "tw"
+      [] th.opc = "pt.msctx" -> "pt"
       [] th.opc = "rd.read" /\ ~InCall(th) -> "tr"
       [] OTHER -> "blk"
 Obs == [app |-> [t \in AppThreads |-> AppObs(t)],
